@@ -27,7 +27,9 @@ fn lv_res(base: &[u8], r: Result<LazyValue, sonic_rs::Error>, unchecked: bool) -
         Ok(lv) => {
             let raw = lv.as_raw_str().as_bytes();
             let (a, z) = span(base, raw);
-            json!({"ok":true,"a":a,"z":z,"raw":bytes_j(raw),"utf8":std::str::from_utf8(raw).is_ok(),"unchecked":unchecked,"kind":"span","panic":false})
+            // decoded view of a string result (the escape status captured at skip time decides how as_str decodes)
+            let sv = if lv.is_str() { match lv.as_str() { Some(s) => json!({"some":true,"s":cps(s)}), None => json!({"some":false}) } } else { json!({"some":false,"notstr":true}) };
+            json!({"ok":true,"a":a,"z":z,"raw":bytes_j(raw),"sv":sv,"utf8":std::str::from_utf8(raw).is_ok(),"unchecked":unchecked,"kind":"span","panic":false})
         }
         Err(e) => json!({"ok":false,"err":err_j(&e),"nf":e.is_not_found(),"tm":e.is_unmatched_type(),"unchecked":unchecked,"kind":"span","panic":false}),
     }
